@@ -47,7 +47,7 @@ class World:
             srv = RefServer(self.clock, name=host)
             self.net.add_server(host, port, srv, ips=[ip])
             self.nodes[(host, ip, port)] = srv
-        self.version = 0
+        self.version = 7          # configuration versions cross 9 -> 10 within a scenario
 
     def advertise(self, idxs):
         self.version += 1
@@ -80,6 +80,19 @@ def route_and_check(res, w, client, adv, use_vpc, v, label):
                 v("advertised-node-gets-no-keys", "%s: %s received none of %d keys (advertised %r)" % (label, n[0], len(CORPUS), adv))
         if sum(got.values()) != len(CORPUS):
             v("key-not-routed-exactly-once", "%s: %d commands for %d keys" % (label, sum(got.values()), len(CORPUS)))
+    # commands addressed to every node reach exactly the advertised ones
+    marks2 = {n: len(s_.cmdlog) for n, s_ in w.nodes.items()}
+    for opn in ("stats", "flush_all"):
+        try:
+            getattr(client, opn)()
+        except Exception as e:
+            v("all-nodes-command-raises:%s:%s" % (opn, type(e).__name__), "%s: %s() raised %r with advertised nodes %r" % (label, opn, e, adv))
+    for n, s_ in w.nodes.items():
+        verbs = {c.verb for c in s_.cmdlog[marks2[n]:]}
+        if n in advertised and not {b"stats", b"flush_all"} <= verbs:
+            v("all-nodes-command-skips-advertised-node", "%s: %s saw only %r of stats/flush_all" % (label, n[0], sorted(verbs)))
+        if n not in advertised and verbs:
+            v("all-nodes-command-reaches-unadvertised-node", "%s: %s (not advertised) received %r" % (label, n[0], sorted(verbs)))
     # name / port used to resolve
     want = {((n[1] if use_vpc else n[0]), str(n[2])) for n in advertised}
     for host, port, call in net.gai_log[g0:]:
@@ -100,6 +113,8 @@ def open_sockets_to(w):
 
 
 def scenario(res, seq, use_vpc, segspec, pooling, failing, label=""):
+    import logging
+    logging.raiseExceptions = False     # the library's own logger.exception() call has a formatting slip; keep stderr quiet
     from pymemcache.client.ext.aws_ec_client import AWSElastiCacheHashClient
     import pymemcache.client.hash as hashmod
     from vk import driver
@@ -136,18 +151,31 @@ def scenario(res, seq, use_vpc, segspec, pooling, failing, label=""):
             if failing and step == 1 and len(prev) >= 1:
                 # a node fails (and is evicted / marked failed) before the list changes; which one varies
                 bad = UNIVERSE[prev[-1] if failing is True else prev[(failing - 1) % len(prev)]]
+                if pooling:
+                    # what concurrent callers leave behind: several idle connections per node
+                    for pc in client.clients.values():
+                        pool = getattr(pc, "client_pool", None)
+                        if pool is not None:
+                            conns = [pool.get() for _ in range(4)]
+                            for cx in conns:
+                                cx.get("warm")
+                            for cx in conns:
+                                pool.release(cx)
                 w.nodes[bad].health = "refused"
-                for k in CORPUS[:60]:
-                    try:
-                        client.get(k)
-                    except Exception:
-                        pass
-                w.clock.advance(11)
-                for k in CORPUS[:60]:
-                    try:
-                        client.get(k)
-                    except Exception:
-                        pass
+                from pymemcache.exceptions import MemcacheError
+                for rnd in range(2):
+                    for k in CORPUS[:60]:
+                        try:
+                            client.get(k)
+                        except (OSError, MemcacheError):
+                            pass            # the failing node's own error, or 'all servers down'
+                        except Exception as e:
+                            v("internal-error-during-failover:%s" % type(e).__name__,
+                              "get(%r) while node %s is refusing raised %r" % (k, bad[0], e))
+                            break
+                    # the reconfiguration may come right after the failures (inside the retry window) or later
+                    if rnd == 0 or (len(prev) + len(adv)) % 2 == 0:
+                        w.clock.advance(11)
                 w.nodes[bad].health = "up"
             if failing and step == 1 and (len(seq) + len(prev)) % 2 == 0:
                 # the endpoint refuses once: the call must fail with the memcached error and leave a usable client
